@@ -44,7 +44,12 @@ def cases(tier, rng, dist):
     for _ in range(N // 2):
         reps, n = rng.randint(1, 8), rng.randint(2, 3)
         t = gen_matrix(rng, reps + 1, n, rng.randint(0, 3))
-        yield {"f": "sim", "table": [[str(v) for v in r] for r in t], "comb": rng.choice(COMBS[:5] + ["logit", "logit"]),
+        intobs = rng.random() < 0.35
+        if intobs:
+            # the statistics of the data as given happen to be whole numbers (returned as Python ints), those of the
+            # re-allocations are halves: the matrix of statistics must not take its type from the observed row
+            t = [t[0]] + [[v + Fraction(rng.choice([0, 1, 1]), 2) for v in r] for r in t[1:]]
+        yield {"f": "sim", "intobs": intobs, "table": [[str(v) for v in r] for r in t], "comb": rng.choice(COMBS[:5] + ["logit", "logit"]),
                "pynum": rng.random() < 0.5, "in_place": rng.random() < 0.5,
                # how the user's randomizer delivers the new assignment: a fresh array bound to data.group (as randomize_group
                # does) or the existing array overwritten in place (as randomize_in_strata does)
@@ -58,6 +63,9 @@ def cases(tier, rng, dist):
                "resp2": [[rng.randint(-5, 5), rng.randint(-5, 5)] for _ in range(n)], "strata": [rng.randrange(2) for _ in range(n)],
                "strat": rng.random() < 0.5, "in_place": rng.random() < 0.3, "seed": rng.randint(0, 10**6), "reps": rng.randint(3, 8),
                "comb": rng.choice(["fisher", "tippett"]), "fn": rng.choice(["sim_npc", "westfall_young"])}
+    # tens of thousands of permutations (beyond 2^16): every row counts (Tippett: exact through integer counts)
+    for k in range(2 if tier == "quick" else 8):
+        yield {"f": "npc_big", "B": 70001 + 13 * k, "n": 2 + k % 3, "seed": rng.randint(0, 10**6), "plus1": bool(k % 2), "q": [rng.randint(1, 60000) for _ in range(4)]}
     # malformed shapes
     for spec in ("fisher", "tippett"):
         yield {"f": "npc", "distr": [["1", "2"], ["0", "1"]], "obs_row": None, "p": ["1/2"], "comb": spec, "plus1": True, "dtype": "float"}
@@ -87,6 +95,8 @@ def run_sim(c):
         def f(data):
             k = int(data.group[0])
             v = float(t[k][j])
+            if c.get("intobs") and v.is_integer():
+                return int(v)
             return v if c["pynum"] else np.float64(v)
         return f
     R = NPC.Experiment.Randomizer(randomize=rand)
@@ -124,7 +134,26 @@ def run_sim_edit(c):
     return {"r1": list(r1), "r2": list(r2), "fresh": list(r3), "g_after1": g_after1}
 
 
+def big_npc_data(c):
+    B, n = c["B"], c["n"]; cc = 1 if c["plus1"] else 0
+    d = np.random.RandomState(c["seed"]).randint(0, 50, size=(B, n)).astype(float)
+    # observed partial p-values half-way between two attainable row p-values: no ties with any row, exact in binary64 comparisons
+    p = [(2 * c["q"][j] + 1 + 4 * cc) / (2.0 * (B + cc)) for j in range(n)]
+    return d, p
+
+
 def run(c):
+    if c["f"] == "npc_big":
+        d, p = big_npc_data(c); d0 = d.copy()
+        r = guarded(lambda: float(NPC.npc(np.array(p), d, "tippett", plus1=c["plus1"])), secs=180)
+        B, n = d.shape; cc = 1 if c["plus1"] else 0
+        ge = np.empty((B, n), dtype=np.int64)
+        for j in range(n):
+            srt = np.sort(d0[:, j]); ge[:, j] = B - np.searchsorted(srt, d0[:, j], side="left")
+        minge = ge.min(axis=1)
+        thr = min(2 * c["q"][j] + 1 + 4 * cc for j in range(n))          # (minge + 2cc)/(B+cc) <= thr / (2 (B+cc))
+        hits = int(np.sum(2 * (minge + 2 * cc) <= thr))
+        return {"r": list(r), "unmodified": bool((d == d0).all()), "hits": hits}
     if c["f"] == "sim":
         return run_sim(c)
     if c["f"] == "sim_edit":
@@ -140,6 +169,20 @@ def run(c):
 
 
 def oracle(c, o):
+    if c["f"] == "npc_big":
+        r = o["r"]; cc = 1 if c["plus1"] else 0
+        if r[0] != "ok":
+            _v = emit({"why": f"npc raised on a {c['B']} x {c['n']} matrix: {r[:3]}", "cls": "npc:raises"})
+            if _v: return _v
+            return None
+        if not o["unmodified"]:
+            _v = emit({"why": "npc modified its arguments", "cls": "npc:input-modified"})
+            if _v: return _v
+        want = Fraction(cc + o["hits"], cc + c["B"])
+        if abs(Fraction(r[1]) - want) > Fraction(1, 10**12):
+            _v = emit({"why": f"npc (Tippett, plus1={c['plus1']}) on a {c['B']} x {c['n']} matrix (RandomState({c['seed']}).randint(0, 50)): returned {r[1]}, the rank p-value over all rows is {float(want)} ({o['hits']} rows)", "cls": "npc:rank-pvalue"})
+            if _v: return _v
+        return None
     if c["f"] == "sim_edit":
         if any(o[k][0] != "ok" for k in ("r1", "r2", "fresh")):
             _v = emit({"why": f"{c['fn']} raised: {[o[k][:2] for k in ('r1', 'r2', 'fresh')]}", "cls": "sim_npc:raises"})
@@ -200,7 +243,7 @@ def oracle(c, o):
 
 
 def to_coq(c, o):
-    if c["f"] == "sim_edit":
+    if c["f"] in ("sim_edit", "npc_big"):
         return None
     r = o["r"]
     if c["f"] == "sim":
@@ -224,6 +267,8 @@ def to_coq(c, o):
 
 
 def nontrivial(c, o):
+    if c["f"] == "npc_big":
+        return o["r"][0] == "ok"
     if c["f"] == "sim_edit":
         return o["r2"][0] == "ok"
     r = o["r"]
